@@ -424,10 +424,12 @@ class Check:
                 run.verdict = "violated"
             else:
                 run.verdict = "harness_error"
+        elif run.rc == 3 or (run.result and run.result.get("verdict") == "inconclusive"):
+            # a run that stalled after recording findings is still inconclusive (it is re-run;
+            # the findings recorded so far are kept)
+            run.verdict = "inconclusive"
         elif run.viol:
             run.verdict = "violated"
-        elif run.rc == 3 or (run.result and run.result.get("verdict") == "inconclusive"):
-            run.verdict = "inconclusive"
         elif run.rc == 0:
             run.verdict = "held"
         else:
@@ -458,16 +460,22 @@ class Check:
             if run.verdict == "inconclusive":
                 # re-run once with the same seed before calling it a hang
                 first_out = (run.stdout, run.stderr)
+                first_viol = list(run.viol)
                 run.first_inconclusive = "%s\n%s" % (run.stdout[-2000:], run.stderr[-3000:])
                 print("NOTE: inconclusive first attempt (%s %s %s), re-running once:\n%s" %
                       (run.harness, run.variant, " ".join(run.args), run.stderr[-2500:]), file=sys.stderr)
                 self._exec(run)
+                for kv in first_viol:
+                    if kv[0] not in [k for k, _ in run.viol]:
+                        run.viol.append(kv)
                 why = (run.result or {}).get("inconclusive", "") or getattr(run, "why", "")
                 if run.verdict == "inconclusive" and ": slow" in why:
                     # still making progress when the watchdog fired: a sizing problem of the
                     # workload, not a verdict about the property
                     run.verdict = "harness_error"
                     run.stderr += "\nworkload too slow for its watchdog twice: " + why
+                elif run.verdict == "held" and run.viol:
+                    run.verdict = "violated"
                 elif run.verdict == "inconclusive":
                     sc = (run.result or {}).get("scenario", "?")
                     run.viol.append(("hang:reproduced:%s:%s" % (run.harness, run.tag or sc),
